@@ -929,7 +929,7 @@ func main() {
 		}
 	}
 	c.Set("g2h_cells_where_a_user_handler_ran", hran)
-	c.Assume("G2h: a cell whose effective handler (PHP's handler stack) calls exit(n) is a control: the script chose its status; every other cell ends with an uncaught throwable and is held to the statement whether or not a user handler is invoked")
+	c.Assume("G2h: a cell whose effective handler (PHP's handler stack) calls exit(n) is a control: the script chose its status; a cell in which a user handler actually ran for the throwable and returned is a control too (counted in g2h_control_cells_*; only the flushing of earlier output is still required of it); every other cell (no handler in force, a value origami does not invoke, a handler that itself throws) ends with an uncaught throwable and is held to the statement")
 	c.Set("instanceof_mask", mask)
 	c.Assume("repeated identical throws in one run (family d1i): 2 loop iterations or 3 calls of one function, interface chain of 3 extends-levels")
 	c.Assume("G1 is exhaustive only inside the listed alphabets: nesting depth <= 2 (thorough: + depth-3 chains), <= 2 catch clauses per try at depth 1 and <= 1 at depth 2, two loop iterations, one interesting statement per block")
